@@ -77,11 +77,6 @@ end Fl
 
 /-! ### allocator -/
 
-theorem ensureRefblock_fl (off : Nat) : Fl (ensureRefblock off) := by
-  refine ⟨fun d => ?_⟩; unfold ensureRefblock; dsimp only
-  repeat' split
-  all_goals fos_triv
-
 /-- `alloc_range` alone changes refcounts without touching the flag (its only
     caller `try_alloc_from_rb_slice` sets it afterwards): everything else is kept -/
 theorem allocRange_view (c0 s n : Nat) (d : Dev) :
@@ -120,6 +115,28 @@ theorem freeClusters_fl (host n : Nat) (fz : Bool) : Fl (freeClusters host n fz)
       · split
         · exact FoS.trans (Or.inl rfl) (ih _ _ _)
         · exact FoS.trans (Or.inl rfl) (ih _ _ _)
+
+/-- statement unchanged; re-proved through the growth path: the relocation sets the
+    flag, the in-place branch of `growReftable` changes only `rtLen`, which is not part
+    of the metadata view -/
+theorem ensureRefblock_fl (off : Nat) : Fl (ensureRefblock off) := by
+  refine ⟨fun d => ?_⟩
+  apply ensureRefblock_rel FoS FoS.refl (fun _ _ _ => FoS.trans)
+  · intro i d _
+    rw [growReftable_eq]
+    split
+    · fos_triv
+    · split
+      · exact Or.inl rfl
+      · exact FoS.refl d
+  · intro i d
+    rw [ensureRefblockIn_eq]
+    split
+    · exact FoS.refl d
+    · split
+      · exact Or.inl rfl
+      · exact FoS.refl d
+  · intro o n fz d; exact (freeClusters_fl o n fz).fos d
 
 theorem loopStep_fos (rbEnd allocCnt host count outOff done : Nat) (d : Dev) :
     match loopStep rbEnd allocCnt host count outOff done d with
